@@ -219,7 +219,7 @@ pub fn run(ctx: &Ctx) {
     ctx.sse("token_sequences", &format!("all sequences of <= {} tokens over 15 tokens x 4 renderings", l), seq_space(l), seq_from_index, check_seq);
     let m = if ctx.quick() { 4 } else { 5 };
     ctx.sse("section_sequences", &format!("all sequences of <= {} sections over 13 shapes x 4 renderings", m), (0..=m).map(|k| NSHAPE.pow(k)).sum::<usize>() * 4, sec_from_index, check_sec);
-    ctx.pbt("tool_written_keyrings", ctx.n(40_000, 1_500_000), || (proptest::collection::vec(name_strategy(), 1..6), any::<u64>(), any::<bool>()).prop_map(|(names, seed, leading_newline)| Written { names, seed, leading_newline }), check_written);
+    ctx.pbt("tool_written_keyrings", ctx.n(200_000, 1_500_000), || (proptest::collection::vec(name_strategy(), 1..6), any::<u64>(), any::<bool>()).prop_map(|(names, seed, leading_newline)| Written { names, seed, leading_newline }), check_written);
     // every code point below U+3100 at start, middle and end of a name
     ctx.sse("name_code_points", "every code point < U+3100 placed at the start, middle and end of a name", 0x3100 * 3, |i| { let ch = char::from_u32((i / 3) as u32).unwrap_or('x'); let n = match i % 3 { 0 => format!("{}ab", ch), 1 => format!("a{}b", ch), _ => format!("ab{}", ch) }; Written { names: vec![n, "other".into()], seed: 9, leading_newline: false } }, check_written);
     ctx.pbt("random_texts", ctx.n(30_000, 800_000), || prop_oneof!["\\PC{0,200}", "(\\[Key\\]|Name|PublicKey|PrivateKey|=| |\t|\n|\r\n|#|[a-zA-Z0-9+/]{1,48}){0,40}"].prop_map(|text| TextCase { text }), check_text);
